@@ -55,6 +55,22 @@ fn main() {
                 None => println!("not parseable"),
             }
         }
+        Some("cbor-classes") => {
+            // development aid: the path classes of the definite-length headers of a CBOR file, with counts
+            let data = std::fs::read(args.get(1).unwrap_or_else(|| usage())).unwrap();
+            match c19::mutate::C::parse_stam(&data) {
+                Some(c) => {
+                    let mut m = std::collections::BTreeMap::new();
+                    for h in c.headers() {
+                        *m.entry(h).or_insert(0usize) += 1;
+                    }
+                    for (h, n) in m {
+                        println!("{:6} {}", n, h);
+                    }
+                }
+                None => println!("not parseable"),
+            }
+        }
         Some("survey") => {
             let n = args.get(1).and_then(|s| s.parse::<usize>().ok()).unwrap_or(2000);
             let seed = args.get(2).and_then(|s| s.parse::<u64>().ok()).unwrap_or(1);
